@@ -85,7 +85,8 @@ class PACTAct(Quantizer):
         :return: the scale factor
         :rtype: torch.Tensor
         """
-        return self.clip_val.data[0] / (2 ** self.precision - 1)
+        # same step as PACTActSTE.forward, which divides by (clip_val + 1e-3)
+        return (self.clip_val.data[0] + 1e-3) / (2 ** self.precision - 1)
 
     def summary(self) -> Dict[str, Any]:
         """Export a dictionary with the optimized layer quantization hyperparameters
